@@ -13,7 +13,7 @@ from ..avm.ctx import ASSUMPTIONS
 from ..avm.engine import Engine, HarnessError
 from ..avm.sym import Bounds, SymAVM
 from ..common import Report, from_json, run_jobs, seed, tier, to_json, write_evidence
-from ..recipe import gen, gen_const, gen_fields, gen_ill, gen_opt, gen_subs
+from ..recipe import gen, gen_const, gen_fields, gen_ill, gen_opt, gen_slots, gen_subs
 from ..teal.parse import TealSyntaxError, check_program, parse
 from .. import cfgcheck, features, tv, tvjob
 
@@ -124,6 +124,9 @@ def build_jobs(t, sd):
             # source programs that break a typing rule: nothing is demanded when they are rejected, but an
             # accepted one must be as disciplined as any other program
             fams += gen_ill.ill_family(mode, v)
+            if mode == "A" and (thorough or v in (4, 8, 10)):
+                # differently typed variables, some explicitly numbered: a shared slot would hand a consumer the wrong type
+                fams += gen_slots.typed_slot_family(mode, v)
             if thorough:
                 fams += gen.random_family(mode, v, sd, 30)
             for (name, rec, opts) in fams:
